@@ -212,10 +212,13 @@ type Endpoint struct {
 
 // World is a simulated deployment: network, links, scheduler, sessions.
 type World struct {
-	S     *Sim
-	Net   *Net
-	Links *Links
-	Pool  *PoolSan
+	// ListenerClosedMidway: the scenario closed the listener during the run
+	// (emissions of sessions the harness never got from Accept are post-close).
+	ListenerClosedMidway bool
+	S                    *Sim
+	Net                  *Net
+	Links                *Links
+	Pool                 *PoolSan
 
 	Cipher string
 	Key    []byte
@@ -292,6 +295,11 @@ func NewWorld(s *Sim, opt WorldOpt) *World {
 	s.OnEmit = w.onEmit
 	s.IsPost = func(p *OutPkt) bool {
 		ep := w.byFlow[p.Src.addrStr+">"+p.Dst]
+		if ep == nil && w.ListenerClosedMidway && p.Src == w.LConn {
+			// a session the listener was creating when it was closed: closed by the
+			// library itself, its last flush exists or not by the runtime's choice
+			return true
+		}
 		return ep != nil && ep.CloseInvoked
 	}
 	if w.Cipher == "" {
